@@ -567,3 +567,33 @@ func init() {
 		Stubs:   stubsCommon,
 	})
 }
+
+func init() {
+	register(&CheckDef{
+		ID:    "C16",
+		Title: "A data directory has at most one open database at a time",
+		Reach: []string{"done", "reopened-after-close", "failed-open-corrupt", "failed-open-injected"},
+		Jobs: func(tier string) []JobSpec {
+			var js []JobSpec
+			for idx := 1; idx <= 3; idx += 2 {
+				js = append(js, JobSpec{Name: "sequential-" + idxName[idx], Harness: "root", Func: "verifHarnessC16", Params: p("index", idx, "shards", 1, "maxfail", 14), Scale: scaleDF(32)})
+			}
+			pre := 2
+			if tier == "thorough" {
+				pre = 4
+			}
+			js = append(js, JobSpec{Name: "racing-opens-fresh-dir", Harness: "root", Func: "verifHarnessC16Race", Params: p("index", 3, "shards", 1, "preempt", pre), Scale: scaleDF(32), NoReplay: true})
+			js = append(js, JobSpec{Name: "witness", Harness: "root", Func: "verifHarnessC16", Params: p("index", 3, "shards", 1, "maxfail", 14, "witness", 1), Scale: scaleDF(32), Witness: true})
+			return js
+		},
+		Assumptions: []string{"flock contract: one holder per lock file, two Flock objects in one process conflict (as flock(2) does per open file description), all locks die with the process; real cross-process kernel behaviour is trusted, not checked",
+			"for this property only one solver-chosen file-system call inside Open may return an error, so every error exit of Open after the lock is taken is driven",
+			"racing Opens are interleaved at file-system and lock operations (engine threads); schedule violations are not replayed natively"},
+		Bounds: map[string]string{
+			"quick":    "open+put, rejected second Open (op log shows nothing but the lock file touched), Close, then: reopen / a damaged data file (every byte position, symbolic non-zero mask) makes Open fail or not, undo, reopen / the k-th FS call of Open fails for every k, reopen; two goroutines racing Open on a fresh directory with <= 2 preemptions",
+			"thorough": "<= 4 preemptions",
+		},
+		Outside: "other processes, NFS, kernel flock semantics, GC finalizers closing leaked descriptors",
+		Stubs:   stubsCommon,
+	})
+}
